@@ -229,7 +229,12 @@ def run(repo, units, seed, per_contract=150):
                 ok_runs += 1
                 evals += 1
                 if r.get("confirmed"):
-                    bad.append({"target": key, "failed": r.get("failed_clauses"), "args": r.get("args"),
+                    # a clause listed in known_findings.json as refuted is EXPECTED to fail natively: not a disagreement
+                    from .ex_call import _refuted_known
+                    failed = [f for f in (r.get("failed_clauses") or []) if not _refuted_known(f"{c.target}/post.{f}")]
+                    if not failed:
+                        continue
+                    bad.append({"target": key, "failed": failed, "args": r.get("args"),
                                 "result": r.get("result"), "raised": r.get("raised")})
                     break
             if ok_runs == 0 and not any(k == key for k, _ in skipped):
